@@ -414,6 +414,22 @@ fn main() {
     }
 
     let thorough = args.thorough();
+    // past failures first
+    if let Ok(dir) = std::fs::read_dir("/verif/corpus/C20") {
+        let mut files: Vec<_> = dir.filter_map(|e| e.ok()).map(|e| e.path()).filter(|p| p.extension().map_or(false, |x| x == "json")).collect();
+        files.sort();
+        for f in files {
+            let v: Value = serde_json::from_str(&std::fs::read_to_string(&f).unwrap()).unwrap();
+            let r = &v["replay"];
+            let mut cx = Ctx { rep: &mut rep };
+            if let Some(mut inst) = Inst::create(&mut cx, r["mem"].as_str().unwrap()) {
+                for l in r["ops"].as_array().unwrap() {
+                    inst.exec(&mut cx, l.as_str().unwrap());
+                }
+            }
+            rep.count("corpus-file");
+        }
+    }
     pure_functions(&mut rep);
     protection_histories(&mut rep, &mut rng, thorough);
     {
